@@ -278,6 +278,7 @@ class HillClimbSearch(StructureEstimator):
             raise ValueError("fixed_edges must be an iterable")
         else:
             fixed_edges = set(fixed_edges)
+            start_dag = start_dag.copy()
             start_dag.add_edges_from(fixed_edges)
             if not nx.is_directed_acyclic_graph(start_dag):
                 raise ValueError(
